@@ -398,6 +398,99 @@ impl<'tcx> Cx<'tcx> {
         }
         match ty.kind() {
             ty::Ref(_, inner, _) => {
+                // a slice reference stored in a table (`&[u8]`, `&[u32]`, `&str` …): the elements, as an array
+                if let ConstValue::Slice { alloc_id, meta } = val {
+                    let elem = match inner.kind() {
+                        ty::Slice(e) => Some(*e),
+                        ty::Str => Some(tcx.types.u8),
+                        _ => None,
+                    }?;
+                    let nbytes: usize = match elem.kind() {
+                        ty::Bool => 1,
+                        ty::Int(it) => it.bit_width().map(|b| (b / 8) as usize).unwrap_or(8),
+                        ty::Uint(ut) => ut.bit_width().map(|b| (b / 8) as usize).unwrap_or(8),
+                        _ => return None,
+                    };
+                    if let Some(rustc_middle::mir::interpret::GlobalAlloc::Memory(alloc)) = tcx.try_get_global_alloc(alloc_id) {
+                        let a = alloc.inner();
+                        let n = meta as usize;
+                        if n * nbytes > a.len() {
+                            return None;
+                        }
+                        let bytes = a.inspect_with_uninit_and_ptr_outside_interpreter(0..n * nbytes);
+                        let ej = self.ty(elem);
+                        let mut items = Vec::new();
+                        for i in 0..n {
+                            let mut bits: u128 = 0;
+                            for k in 0..nbytes {
+                                bits |= (bytes[i * nbytes + k] as u128) << (8 * k);
+                            }
+                            let mut j = J::obj().with("ty", ej.clone());
+                            if elem.is_signed() {
+                                let sh = 128 - 8 * nbytes as u32;
+                                j.set("int", J::Int(((bits << sh) as i128) >> sh));
+                            } else {
+                                j.set("int", J::UInt(bits));
+                            }
+                            items.push(j);
+                        }
+                        let ij = J::obj().with("ty", self.ty(*inner)).with("array", J::Arr(items));
+                        return Some(J::obj().with("ty", tj).with("ref", ij).with("slice_len", J::UInt(n as u128)));
+                    }
+                    return None;
+                }
+                // the same, stored in memory as a fat pointer (pointer with provenance + length)
+                if let (ConstValue::Indirect { alloc_id, offset }, true) = (val, matches!(inner.kind(), ty::Slice(_) | ty::Str)) {
+                    let elem = match inner.kind() {
+                        ty::Slice(e) => *e,
+                        _ => tcx.types.u8,
+                    };
+                    let nbytes: usize = match elem.kind() {
+                        ty::Bool => 1,
+                        ty::Int(it) => it.bit_width().map(|b| (b / 8) as usize).unwrap_or(8),
+                        ty::Uint(ut) => ut.bit_width().map(|b| (b / 8) as usize).unwrap_or(8),
+                        _ => return None,
+                    };
+                    let Some(rustc_middle::mir::interpret::GlobalAlloc::Memory(alloc)) = tcx.try_get_global_alloc(alloc_id) else { return None };
+                    let a = alloc.inner();
+                    let o = offset.bytes() as usize;
+                    if o + 16 > a.len() {
+                        return None;
+                    }
+                    let prov = a.provenance().get_ptr(rustc_abi::Size::from_bytes(o as u64))?;
+                    let raw = a.inspect_with_uninit_and_ptr_outside_interpreter(o..o + 16);
+                    let mut rel: u64 = 0;
+                    let mut n: u64 = 0;
+                    for k in 0..8 {
+                        rel |= (raw[k] as u64) << (8 * k);
+                        n |= (raw[8 + k] as u64) << (8 * k);
+                    }
+                    let Some(rustc_middle::mir::interpret::GlobalAlloc::Memory(talloc)) = tcx.try_get_global_alloc(prov.alloc_id()) else { return None };
+                    let ta = talloc.inner();
+                    let (rel, n) = (rel as usize, n as usize);
+                    if n > 4096 || rel + n * nbytes > ta.len() {
+                        return None;
+                    }
+                    let bytes = ta.inspect_with_uninit_and_ptr_outside_interpreter(rel..rel + n * nbytes);
+                    let ej = self.ty(elem);
+                    let mut items = Vec::new();
+                    for i in 0..n {
+                        let mut bits: u128 = 0;
+                        for k in 0..nbytes {
+                            bits |= (bytes[i * nbytes + k] as u128) << (8 * k);
+                        }
+                        let mut j = J::obj().with("ty", ej.clone());
+                        if elem.is_signed() {
+                            let sh = 128 - 8 * nbytes as u32;
+                            j.set("int", J::Int(((bits << sh) as i128) >> sh));
+                        } else {
+                            j.set("int", J::UInt(bits));
+                        }
+                        items.push(j);
+                    }
+                    let ij = J::obj().with("ty", self.ty(*inner)).with("array", J::Arr(items));
+                    return Some(J::obj().with("ty", tj).with("ref", ij).with("slice_len", J::UInt(n as u128)));
+                }
                 let sc = val.try_to_scalar()?;
                 if let rustc_middle::mir::interpret::Scalar::Ptr(ptr, _) = sc {
                     let (prov, offset) = ptr.prov_and_relative_offset();
